@@ -9,6 +9,7 @@ import (
 	"sync"
 
 	"google.golang.org/protobuf/proto"
+	"google.golang.org/protobuf/reflect/protoreflect"
 	"google.golang.org/protobuf/types/known/fieldmaskpb"
 
 	"github.com/smart-core-os/sc-api/go/traits"
@@ -643,7 +644,8 @@ func aliasReflective(w *World) {
 	sort.Slice(ms, func(i, j int) bool { return ms[i].m.Name < ms[j].m.Name })
 	ctx, cancel := context.WithCancel(context.Background())
 	defer cancel()
-	call := func(m reflect.Method) (res []reflect.Value, panicked bool) {
+	readOptType := reflect.TypeOf((*resource.ReadOption)(nil)).Elem()
+	call := func(m reflect.Method, withOpts bool) (res []reflect.Value, panicked bool) {
 		defer func() {
 			if r := recover(); r != nil {
 				panicked = true // a model method rejecting a synthesised argument by panicking is not an aliasing observation
@@ -652,6 +654,14 @@ func aliasReflective(w *World) {
 		args := []reflect.Value{obj}
 		for a := 1; a < m.Type.NumIn(); a++ {
 			if m.Type.IsVariadic() && a == m.Type.NumIn()-1 {
+				// variadic read options: sometimes a read mask with top-level and nested paths of the result type
+				if withOpts && m.Type.In(a).Elem() == readOptType && p.n(2) == 0 {
+					if md := resultMessage(m.Type); md != nil {
+						if paths := randomPaths(md, p); len(paths) > 0 {
+							args = append(args, reflect.ValueOf(resource.WithReadMask(&fieldmaskpb.FieldMask{Paths: paths})))
+						}
+					}
+				}
 				continue
 			}
 			v, _ := synthArg(m.Type.In(a), p, ctx)
@@ -666,7 +676,7 @@ func aliasReflective(w *World) {
 			if !x.readOnly || strings.HasPrefix(x.m.Name, "Pull") || x.m.Type.NumIn() > 1 && !(x.m.Type.IsVariadic() && x.m.Type.NumIn() == 2) {
 				continue
 			}
-			res, pan := call(x.m)
+			res, pan := call(x.m, false)
 			if pan {
 				continue
 			}
@@ -695,7 +705,7 @@ func aliasReflective(w *World) {
 			if x.readOnly {
 				before = getters()
 			}
-			res, pan := call(x.m)
+			res, pan := call(x.m, true)
 			if pan {
 				task.Note("%s panicked on a synthesised argument (ignored)", desc)
 				continue
@@ -748,4 +758,63 @@ func aliasReflective(w *World) {
 	w.MarkNontrivial()
 	cancel()
 	w.Run()
+}
+
+// resultMessage finds the proto message type a method hands out: *T, []*T, or a channel of structs / messages carrying one.
+func resultMessage(ft reflect.Type) protoreflect.MessageDescriptor {
+	var find func(t reflect.Type, depth int) protoreflect.MessageDescriptor
+	find = func(t reflect.Type, depth int) protoreflect.MessageDescriptor {
+		if depth < 0 {
+			return nil
+		}
+		if t.Kind() == reflect.Ptr && t.Implements(protoMessageType) {
+			return reflect.New(t.Elem()).Interface().(proto.Message).ProtoReflect().Descriptor()
+		}
+		switch t.Kind() {
+		case reflect.Slice, reflect.Chan, reflect.Ptr:
+			return find(t.Elem(), depth-1)
+		case reflect.Struct:
+			for i := 0; i < t.NumField(); i++ {
+				if t.Field(i).IsExported() {
+					if d := find(t.Field(i).Type, depth-1); d != nil {
+						return d
+					}
+				}
+			}
+		}
+		return nil
+	}
+	for i := 0; i < ft.NumOut(); i++ {
+		if d := find(ft.Out(i), 3); d != nil {
+			return d
+		}
+	}
+	return nil
+}
+
+// randomPaths picks 1-3 field mask paths of md: top-level fields and, for message-typed fields (repeated or not), one level down.
+func randomPaths(md protoreflect.MessageDescriptor, p *prng) []string {
+	var all []string
+	fds := md.Fields()
+	for i := 0; i < fds.Len(); i++ {
+		fd := fds.Get(i)
+		all = append(all, string(fd.Name()))
+		if fd.Message() != nil && !fd.IsMap() {
+			sub := fd.Message().Fields()
+			for j := 0; j < sub.Len() && j < 6; j++ {
+				all = append(all, string(fd.Name())+"."+string(sub.Get(j).Name()))
+			}
+		}
+	}
+	if len(all) == 0 {
+		return nil
+	}
+	var out []string
+	for k := 1 + p.n(3); k > 0; k-- {
+		x := all[p.n(len(all))]
+		if !contains(out, x) {
+			out = append(out, x)
+		}
+	}
+	return out
 }
